@@ -21,6 +21,7 @@ A_WBC = 'write_bits used through its proved contract minus the byte-content clau
 D_2G = 'isal_deflate_stateless: avail_in <= 2^31-1 (for larger inputs `2*avail_in` wraps and `1 << bsr(avail_in)` shifts an int by 32: UB by the letter, excluded by precondition, reported)'
 
 HARNESSES = []
+DRAFTS = []  # written but not closed within the resource budget: not registered
 
 
 def add(name, props, enforce, **kw):
@@ -68,14 +69,24 @@ add('deflate_pass_full', ['C11', 'C07'], 'isal_deflate_pass', entry='h_deflate_p
     also=['C01', 'C05', 'C10', 'C15'], trusted=[A_KERN, A_CRC, A_ADL, RFC_SIZES], solver='cadical', tier='thorough',
     timeout=3600, expect=['postcondition', 'precondition'])                                                          # 205 s
 # write_constant_compressed_stateless: consumed run == checksummed run; loops <= 11 iterations, unrolled
+CCW = 'write_constant_compressed_stateless_wrapped_for_contract_checking'
 CC = dict(defines=['DF_WB_COARSE'], replace=['write_bits', 'crc32_gzip_refl', 'isal_adler32'], unwind=25, solver='cadical',
+          unwindset=[CCW + '.0:12', CCW + '.1:13', CCW + '.2:11'],
           bounds='loops of at most 11 iterations (rep_extra < 258) fully unrolled; unwinding assertions proved',
           trusted=[A_WBC, A_CRC, A_ADL], expect=['postcondition', 'precondition'])
-add('write_constant_compressed', ['C11', 'C10'], 'write_constant_compressed_stateless', object_bits=11,
-    properties=[r'write_constant_compressed_stateless\.postcondition', r'\.precondition', r'\.unwind'], min_obligations=15,
-    note='contract obligations only; all obligations: write_constant_compressed_full', **CC)                         # 100 s
+# quick: rep_extra = (repeated_length-1) % 258 in 116..257 (the two-code tail), q = (repeated_length-1)/258 <= 2, every
+# contract obligation incl. "what the codes denote == the run" (audit mutant E9) and "consumed == checksummed" (seed 3).
+# thorough: rep_extra 0..115, the unbounded-length harness, and all obligations.
+PCC = [r'write_constant_compressed_stateless\.postcondition', r'\.precondition', r'\.unwind']
+for v in ('hi', 'lo'):
+    add('write_constant_compressed_' + v, ['C11', 'C10'], 'write_constant_compressed_stateless', entry='h_write_constant_compressed',
+        kind='bounded', object_bits=11, min_obligations=15, properties=PCC, tier=('quick' if v == 'hi' else 'thorough'), timeout=3600,
+        **dict(CC, defines=['DF_WB_COARSE', 'DF_CC_SMALL', 'DF_CC_' + v.upper()],
+               bounds='rep_extra = (repeated_length-1) % 258 exhaustive (hi: 116..257, lo: 0..115), q = (repeated_length-1)/258 <= 2; loops unrolled'))  # 73 s / 210 s
+add('write_constant_compressed', ['C11', 'C10'], 'write_constant_compressed_stateless', object_bits=11, properties=PCC,
+    min_obligations=15, tier='thorough', timeout=8000, note='any repeated_length; contract obligations only', **CC)   # 776 s
 add('write_constant_compressed_full', ['C11', 'C10'], 'write_constant_compressed_stateless',
-    entry='h_write_constant_compressed', tier='thorough', timeout=3600, object_bits=11, **CC)                                       # 250 s
+    entry='h_write_constant_compressed', tier='thorough', timeout=12000, object_bits=11, **CC)
 HARNESSES.append(H('wrapper_consts', ['C11', 'C10'], 'igzip/deflate_consts.c', ['igzip/hufftables_c.c'], timeout=600,
                    expect=['assertion'], min_obligations=6, also=['C19'], replay=(RP, 'wrapper_consts')))           # 0.3 s
 
@@ -94,6 +105,13 @@ add('deflate_stateless_a', ['C10'], 'isal_deflate_stateless', entry='h_deflate_s
              'update_checksum', 'reset_match_history'],
     also=['C05', 'C15'], solver='cadical', trusted=[A_INT, D_2G], expect=['postcondition', 'precondition'],
     note='paths outside the stored fallback and the FULL_FLUSH history reset')                                      # 31 s
+# stored fallback end to end (NO_FLUSH): rewind after the failed attempt, stream header, stored blocks of the whole
+# input, checksum, trailer; total bytes == bound.  write_stored_block through its proved contract.
+add('deflate_stateless_c', ['C10'], 'isal_deflate_stateless', entry='h_deflate_stateless', defines=['DF_SL_C', 'DF_RMH_COARSE'],
+    replace=['isal_deflate_int_stateless', 'write_stored_block', 'write_stream_header_stateless', 'write_trailer',
+             'update_checksum', 'reset_match_history', 'crc32_gzip_refl', 'isal_adler32'],
+    also=['C05', 'C11', 'C15'], solver='cadical', tier='thorough', timeout=6000, trusted=[A_INT, A_CRC, A_ADL, D_2G, RFC_SIZES],
+    expect=['postcondition', 'precondition'])
 # block header of the one-shot level-0 path; write_bits call sites carry the "bits fit" assertion (E_write_bits)
 add('deflate_header_stateless', ['C10'], 'write_deflate_header_stateless', also=['C01', 'C05', 'C15'], trusted=[A_HT],
     solver='cadical', expect=['postcondition', 'assertion'])                                                        # 24 s
@@ -105,8 +123,35 @@ for bc in range(0, 8):                                                          
         tier=('quick' if bc in (0, 3, 7) else 'thorough'),
         also=['C01', 'C05', 'C15'], trusted=[A_HT], solver='cadical', expect=['postcondition', 'assertion'])
 
+add('detect_repeated', ['C10'], 'detect_repeated_char_length', object_bits=8, replay=(RP, 'detect_repeated'),
+    expect=['postcondition', 'loop_invariant_step', 'loop_decreases'])                                              # 10 s
+A_PSL = 'ASSUMED progress contract of one compression pass in the one-shot path (isal_deflate_pass / isal_deflate_icf_pass): counters consistent, output inside the range given, call counted'
+A_DH = 'write_deflate_header_unaligned_stateless used through its contract for every deflate_hdr_count (proved for <= 31 only)'
+for v in ('lvl0', 'lvln'):
+    add('deflate_int_stateless_' + v, ['C10'], 'isal_deflate_int_stateless', entry='h_deflate_int_stateless',
+        defines=['DF_INT_SL', 'DH_MAXCNT=327', 'DF_RMH_COARSE'] + (['DF_LVLN'] if v == 'lvln' else []),
+        replace=['write_stream_header_stateless', 'detect_repeated_char_length', 'write_constant_compressed_stateless',
+                 'write_deflate_header_unaligned_stateless', 'reset_match_history', 'isal_deflate_pass',
+                 'isal_deflate_icf_pass'],
+        also=['C05', 'C11', 'C15'], trusted=[A_PSL, A_DH, A_HT], solver='cadical', tier='thorough', timeout=6000,
+        expect=['postcondition', 'precondition'])
+
 # ---- (e) C07 resumable helpers (write_stream_header above, write_trailer above)
 add('write_header', ['C07'], 'write_header', also=['C01', 'C05', 'C10', 'C15'])                                     # 47-140 s
+
+A_PASS = 'ASSUMED progress contract of one compression pass (isal_deflate_pass / isal_deflate_icf_pass): consumes some input, produces <= avail_out bytes into exactly the range it is given, counters consistent, non-TMP state afterwards; records what it was offered'
+# isal_deflate_int: tmp_out_buff staging.
+#  _drain (quick): entry in a TMP state where the drain ends the call; the pass contract is requires(false), so "no pass
+#          runs while staged bytes remain / no space is left" is an obligation; bytes handed out in order.          50 s
+#  deflate_int_staging (thorough): every entry state, both passes through the ASSUMED progress contract, contract
+#          obligations (pre/postconditions, the code's assert); the byte clause of the copy after the second pass is a draft.
+SG = dict(entry='h_deflate_int', replace=['isal_deflate_pass', 'isal_deflate_icf_pass'], also=['C05', 'C15'], trusted=[A_PASS],
+          solver='cadical', expect=['postcondition', 'precondition', 'assertion'])
+add('deflate_int_staging_drain', ['C07', 'C10'], 'isal_deflate_int', defines=['DF_STAGING', 'DF_STAGING_DRAIN'], **SG)
+# not closed in time (unmutated run > 65 min / memory cap with all obligations; its mutants fail within 5-12 min): draft
+DRAFTS.append(H('deflate_int_staging', ['C07', 'C10'], F, SRC, enforce='isal_deflate_int', defines=['DF_STAGING'], tier='thorough',
+                timeout=30000, properties=[r'isal_deflate_int\.postcondition', r'\.precondition', r'isal_deflate_int\.assertion'],
+                min_obligations=15, **SG))
 
 # ---- (f) C15 init / reset
 for n, fn in (('deflate_init', 'isal_deflate_init'), ('deflate_reset', 'isal_deflate_reset'),
@@ -148,17 +193,18 @@ PROP_TEXT = {
                         'values of CRC-32 / Adler-32 themselves (C04)'],
     },
     'C10': {
-        'assumptions': [A_INT, A_HT, A_WBC, D_2G,
+        'assumptions': [A_INT, A_HT, A_WBC, D_2G, A_PASS, A_PSL, A_DH,
                         'undefined shift `1 << bsr(avail_in)` for avail_in >= 2^31 in isal_deflate_stateless / isal_deflate (UB by the letter, excluded by precondition)',
                         'documentation mismatch noted, not asserted: an undersized level_buf yields ISAL_INVALID_LEVEL, igzip_lib.h says ISAL_INVALID_LEVEL_BUF'],
-        'not_decided': ['stored fallback of isal_deflate_stateless end to end (produces exactly the bound): only its parts (type-0 header, stored-block loop, trailer) are under contract',
+        'not_decided': ['stored fallback of isal_deflate_stateless under FULL_FLUSH (NO_FLUSH is decided end to end in the thorough tier: deflate_stateless_c)',
                         'write_deflate_header_unaligned_stateless beyond deflate_hdr_count <= 31 (bounded)',
-                        'detect_repeated_char_length, isal_deflate_int_stateless bodies; streaming termination over call histories',
-                        'isal_deflate_int tmp_out_buff staging'],
+                        'constant-run block: zero-ness of the 258-repeat padding bytes and the byte layout of the tail (write_bits enters through its coarse contract); q = (len-1)/258 > 2 only in the thorough harness',
+                        'isal_deflate_int staging: the bytes copied out of tmp_out_buff after the second pass (counters, offsets, states and call arguments are decided; the drain bytes are decided)',
+                        'streaming termination over call histories'],
     },
     'C07': {
         'assumptions': ['no wrapper header pending in write_header / isal_deflate_pass (state.count is shared with write_stream_header)'],
-        'not_decided': ['induction over call histories; isal_deflate_int staging through tmp_out_buff; isal_deflate internal buffering'],
+        'not_decided': ['induction over call histories; isal_deflate internal buffering; pending wrapper header in write_header / isal_deflate_pass'],
     },
     'C15': {
         'assumptions': ['frames name fields of the caller-owned isal_zstream only; library globals are outside every frame'],
